@@ -3,6 +3,7 @@ package actionlint
 import (
 	"encoding/json"
 	"fmt"
+	"sort"
 	"strconv"
 	"strings"
 )
@@ -826,7 +827,12 @@ func (sema *ExprSemanticsChecker) checkBuiltinFuncCall(n *FuncCallNode, sig *Fun
 			delete(holders, i) // forget it to check unused placeholders
 		}
 
+		rest := make([]int, 0, len(holders))
 		for i := range holders {
+			rest = append(rest, i)
+		}
+		sort.Ints(rest) // Report errors in deterministic order
+		for _, i := range rest {
 			sema.errorf(n, "format string %q contains placeholder {%d} but only %d arguments are given to format", lit.Value, i, l)
 		}
 	case "fromjson":
